@@ -19,7 +19,9 @@ for sid in sorted(os.listdir(os.path.join(VERIF, 'seeded'))):
         continue
     meta_p = os.path.join(d, 'meta.json')
     meta = json.load(open(meta_p)) if os.path.exists(meta_p) else {}
-    prop = meta.get('property') or ('C16' if sid.startswith('c16') else 'C17')
+    control = sid.endswith('-control')
+    props = ['C16', 'C17'] if control else [meta.get('property') or ('C16' if sid.startswith('c16') else 'C17')]
+    prop = props[0]
     copy_mode = os.environ.get('SEEDED_MODE') == 'copy'
     if copy_mode:
         # scratch copy outside /repo and /verif (removed afterwards); /repo is not touched
@@ -38,7 +40,13 @@ for sid in sorted(os.listdir(os.path.join(VERIF, 'seeded'))):
     try:
         t0 = time.time()
         env = dict(os.environ, A5SIM_REPLAY_DIR='/tmp/seeded-replays')
-        p = sh('/venv/bin/python', os.path.join(VERIF, 'check'), prop, '--tier', tier, '--no-evidence', '--a5-root', root, env=env, timeout=7200)
+        p = None
+        for prop in props:
+            q = sh('/venv/bin/python', os.path.join(VERIF, 'check'), prop, '--tier', tier, '--no-evidence', '--a5-root', root, env=env, timeout=7200)
+            if p is None or q.returncode != 0:
+                p = q
+            if q.returncode != 0:
+                break
         dt = time.time() - t0
     finally:
         if copy_mode:
@@ -46,12 +54,15 @@ for sid in sorted(os.listdir(os.path.join(VERIF, 'seeded'))):
         else:
             sh('git', '-C', '/repo', 'checkout', '--', '.')
     lines = [l for l in p.stdout.splitlines() if l.startswith(('run ', 'minimised', 'VIOLATION', 'HARNESS', prop + ' held'))]
-    res = 'detected' if (p.returncode == 1 and any(l.startswith('VIOLATION property=%s' % prop) for l in lines)) else \
-          ('MISSED' if p.returncode == 0 else 'harness-error')
+    if control:
+        res = 'silent' if p.returncode == 0 else ('FALSE-ALARM' if p.returncode == 1 else 'harness-error')
+    else:
+        res = 'detected' if (p.returncode == 1 and any(l.startswith('VIOLATION property=%s' % prop) for l in lines)) else \
+              ('MISSED' if p.returncode == 0 else 'harness-error')
     meta.setdefault('runs', {})['VERIF_SEED=%s' % os.environ.get('VERIF_SEED', '0')] = {'result': res, 'seconds': round(dt, 1)}
     meta['last_run'] = {'tier': tier, 'VERIF_SEED': os.environ.get('VERIF_SEED', '0'), 'result': res, 'seconds': round(dt, 1), 'output': lines[:4]}
     json.dump(meta, open(meta_p, 'w'), indent=1)
     rows.append((sid, prop, res, dt))
     print('%-8s %-4s %-14s %6.0fs  %s' % (sid, prop, res, dt, (lines[0][:150] if lines else '')), flush=True)
 assert sh('git', '-C', '/repo', 'status', '--porcelain', '--untracked-files=no').stdout.strip() == '', '/repo not clean afterwards'
-sys.exit(0 if all(r[2] == 'detected' for r in rows) else 1)
+sys.exit(0 if all(r[2] in ('detected', 'silent') for r in rows) else 1)
